@@ -249,6 +249,16 @@ func c14Data() []c14Binding {
 		add(ref.Arr(ref.Value{Kind: ref.KArray, A: els}, m))
 		add(ref.NewMap(ref.Pair{K: ref.Str("in"), V: m}, ref.Pair{K: ref.Value{Kind: ref.KArray, A: els}, V: ref.Int(1)}))
 	}
+	// large maps whose integer keys are more than 2^63 apart, in several insertion orders (key ordering must not
+	// depend on the order of construction: the reloaded literal is built in sorted order)
+	ext := []ref.Value{ref.Int(math.MaxInt64), ref.Int(math.MinInt64 + 1), ref.Int(-1), ref.Int(0), ref.Int(1), ref.Int(1 << 62), ref.Int(-(1 << 62))}
+	for rot := 0; rot < len(ext); rot++ {
+		m := ref.NewMap()
+		for i := range ext {
+			m = ref.MapSet(m, ext[(i+rot)%len(ext)], ref.Int(int64(i)))
+		}
+		add(m)
+	}
 	add(ref.Arr(ref.Float(1.0), ref.Float(2.5)))
 	add(ref.NewMap(ref.Pair{K: ref.Float(2.0), V: ref.Str("x")}))
 	return out
@@ -364,6 +374,56 @@ func runC14(c *core.Ctx) {
 			}
 		}
 		bounds = append(bounds, "all ordered pairs and triples of 10 representative bindings (data, constant name, named function, lambda)")
+	}
+	// the save() / load() extensions themselves: a larger state saved, then a smaller one saved under the same name
+	if ok {
+		n := 0
+		for _, name := range []string{"", "st"} {
+			for _, big := range []int{1, 5, 40} {
+				for _, small := range []int{0, 1, 4} {
+					n++
+					key := fmt.Sprintf("resave|%q|%d|%d", name, big, small)
+					if !c.Mine("env", key) {
+						continue
+					}
+					cs := core.Case{Kind: "resave", Data: key}
+					c.Current(cs)
+					v := c.Run(func() *core.Viol {
+						arg := ""
+						if name != "" {
+							arg = ref.SourceString(name)
+						}
+						a := newSess(sessCfg{})
+						for i := 0; i < big; i++ {
+							implEval(a, fmt.Sprintf("rs%d = %q", i, strings.Repeat("v", 20+i)), 1000)
+						}
+						if r := implEval(a, "save("+arg+")", 100000); r.isErr {
+							return &core.Viol{Class: "resave:save-error", Detail: r.errText, Case: cs}
+						}
+						for i := small; i < big; i++ {
+							implEval(a, fmt.Sprintf("del(rs%d)", i), 1000)
+						}
+						if r := implEval(a, "save("+arg+")", 100000); r.isErr {
+							return &core.Viol{Class: "resave:save-error", Detail: r.errText, Case: cs}
+						}
+						b := newSess(sessCfg{})
+						if r := implEval(b, "load("+arg+")", 100000); r.isErr {
+							return &core.Viol{Class: "resave:load-error", Detail: fmt.Sprintf("after saving %d then %d bindings under the same name: %s", big, small, r.errText), Case: cs}
+						}
+						if ga, gb := globalsDump(a.s), globalsDump(b.s); ga != gb {
+							return &core.Viol{Class: "resave:state-differs", Detail: fmt.Sprintf("saved %d then %d bindings: loaded state %s, expected %s", big, small, trunc(gb, 300), trunc(ga, 300)), Case: cs}
+						}
+						return nil
+					})
+					out := "reloads-equal"
+					if v != nil {
+						out = v.Class
+					}
+					c.Count("env: "+key, out, true)
+				}
+			}
+		}
+		bounds = append(bounds, "save(name) of 1/5/40 bindings, then of 0/1/4 of them under the same name, then load(name) in a fresh session")
 	}
 	// functions whose bodies are every G-syn statement list up to a size
 	if ok {
